@@ -12,6 +12,7 @@ import (
 	"path/filepath"
 	"strconv"
 	"sync"
+	"sync/atomic"
 
 	"github.com/cnotch/ipchub/av/format/mpegts"
 	"github.com/cnotch/ipchub/utils/murmur"
@@ -24,6 +25,8 @@ const hlsSegmentMinDurationMs = 100
 // in ms, for HLS aac flush the audio
 const hlsAacDelay = 100
 
+var generatorSeed uint32
+
 // SegmentGenerator generate the HLS ts segment.
 type SegmentGenerator struct {
 	playlist    *Playlist // 播放列表
@@ -32,6 +35,7 @@ type SegmentGenerator struct {
 
 	memory      bool   // 使用内存存储缓存到硬盘
 	segmentPath string // 缓存文件路径
+	instance    uint32 // 进程内唯一的实例号：同一路径的新旧两个流（被替换的流尚有消费者时仍然存活）不能共用文件名
 
 	sequenceNo int      // 片段序号
 	current    *segment //current segment
@@ -58,6 +62,7 @@ func NewSegmentGenerator(playlist *Playlist, path string, hlsFragment int, segme
 		hlsFragment: hlsFragment,
 		memory:      segmentPath == "",
 		segmentPath: segmentPath,
+		instance:    atomic.AddUint32(&generatorSeed, 1),
 		logger:      logger,
 		sequenceNo:  0,
 		audioRate:   audioRate,
@@ -89,7 +94,7 @@ func (sg *SegmentGenerator) segmentOpen(segmentStartDts int64) (err error) {
 	curr.segmentStartPts = segmentStartDts
 	curr.uri = "/streams" + sg.path + "/" + strconv.Itoa(sg.sequenceNo) + ".ts"
 
-	tsFileName := fmt.Sprintf("%d_%d.ts", murmur.OfString(sg.path), curr.sequenceNo)
+	tsFileName := fmt.Sprintf("%d_%d_%d.ts", murmur.OfString(sg.path), sg.instance, curr.sequenceNo)
 	tsFilePath := filepath.Join(sg.segmentPath, tsFileName)
 	if err = curr.file.open(tsFilePath); err != nil {
 		return
